@@ -1,7 +1,7 @@
 """C08 -- Modes apply exactly to the wrapped spec; Fill and argument mode keep shape."""
 from typing import List
 
-from glom import (glom, T, S, A, Val, Coalesce, Pipe, Switch, GlomError, Fill, Auto, Match, Or, Spec, Call, Invoke, Assign,
+from glom import (glom, T, S, A, Val, SKIP, Coalesce, Pipe, Switch, GlomError, Fill, Auto, Match, Or, Spec, Call, Invoke, Assign,
                   MatchError, Path)
 from glom.core import MODE, MIN_MODE, AUTO, FILL
 from glom.matching import _glom_match
@@ -23,7 +23,9 @@ META = {
                    'type, shape and leaf treatment.',
     'bounds': {
         'quick': {'wrapper/structure nesting': 'depth 2 (root x 2 children), 10 node kinds', 'literal container nesting': '<= 2',
-                  'leaf data': 'unbounded symbolic ints'},
+                  'leaf data': 'unbounded symbolic ints',
+                  'step independence': '8 kinds of previous step (wildcard path with failing nested argument, recovered Coalesce / Or, nested chain, Fill, Invoke, S, double wildcard) x 7 next specs x 6 chain forms (tuple, Pipe in Auto/Fill/Match, Switch case, nested Auto) x which row is ragged',
+                  'dict keys': '11 key kinds x Fill / Coalesce default / T-call argument'},
         'thorough': {'wrapper/structure nesting': 'depth 3 chains'},
     },
     'stubs': ['S3 glom_debug=True', 'S4 state reset'],
@@ -184,6 +186,121 @@ def real_probes(which: int, x: int, y: int) -> bool:
 # ---- Fill and argument mode keep shape ----------------------------------------------------------------
 def marker(t):
     return 'called'
+
+
+# ---- the mode a step runs in does not depend on what the previous step was ----------------------------
+class Capture:
+    """records the value handed to the next step (and the mode in force there, argument mode included)"""
+    def __init__(self):
+        self.seen = []
+
+    def glomit(self, target, scope):
+        up = scope[gc.UP].maps[0]
+        self.seen.append((target, 'arg' if up.get(MIN_MODE) else NAMES.get(up[MODE], 'other')))
+        return target
+
+
+def _ident(v):
+    return v
+
+
+N_PREV, N_NEXT = 8, 7
+
+
+def _prev_step(kind):
+    if kind == 0:      # wildcard path whose nested argument fails for the rows lacking 'idx' (those rows are dropped)
+        return T['rows'].__star__()['vals'][T['idx']]
+    if kind == 1:
+        return Coalesce('nope', T['nope2'], default=T['plain'])
+    if kind == 2:
+        return Or(T['nope'], T['plain'])
+    if kind == 3:
+        return (T['rows'], [Coalesce(T['vals'][T['idx']], default=SKIP)])
+    if kind == 4:
+        return Fill([T['plain'], 'lit'])
+    if kind == 5:
+        return Invoke(_ident).specs(T['plain'])
+    if kind == 6:
+        return S(k=T['plain'])
+    return T['rows'].__star__()['vals'].__star__()
+
+
+def _next_step(kind):
+    return ['0', [len], {'n': len, 'z': '0'}, len, ('0',), [str], 'plain'][kind]
+
+
+def step_independence(prev: int, nxt: int, chain: int, r: int) -> bool:
+    """chain(prev, next) behaves as chain(Val(value prev produced), next): a string is a path / a literal / a pattern, a list
+    an iteration / a container / a pattern ... according to the chain's own mode, whatever the previous step did inside
+    (dropped wildcard children with failing arguments, recovered branches, its own mode wrapper, argument evaluation)"""
+    from glom import SKIP as _S  # noqa: F401
+    start()
+    prev, nxt, chain, r = concretize(prev, 0, N_PREV - 1), concretize(nxt, 0, N_NEXT - 1), concretize(chain, 0, 5), concretize(r, -1, 2)
+    if OUT in (prev, nxt, chain, r):
+        return True
+    rows = [{'idx': 1, 'vals': ['a0', 'a1']}, {'idx': 0, 'vals': ['b0', 'b1']}, {'idx': 0, 'vals': ['c0', 'c1']}]
+    if r >= 0:
+        del rows[r]['idx']
+    t = {'rows': rows, 'plain': ['p0', 'p1'], '0': 'zero'}
+
+    def build(first, second):
+        if chain == 0:
+            return (first, second)
+        if chain == 1:
+            return Pipe(first, second)
+        if chain == 2:
+            return Fill(Pipe(first, second))
+        if chain == 3:
+            return Match(Pipe(first, second))
+        if chain == 4:
+            return Switch([(first, second)])
+        return Auto((first, Pipe(second)))
+    cap = Capture()
+    o1 = run(lambda: glom(t, build(_prev_step(prev), cap), glom_debug=True))
+    if o1.kind != 'ok' or len(cap.seen) != 1:
+        return True                                  # the previous step itself fails in this mode: nothing follows
+    v, seen = cap.seen[0]
+    want_mode = {0: 'auto', 1: 'auto', 2: 'fill', 3: 'match', 4: 'auto', 5: 'auto'}[chain]
+    if seen != want_mode:
+        return fail(why='the step after sees another mode than the chain runs in', seen=seen, want=want_mode, prev=prev, chain=chain)
+    reach('independent')
+    got = run(lambda: glom(t, build(_prev_step(prev), _next_step(nxt)), glom_debug=True))
+    ref = run(lambda: glom(t, build(Val(v) if chain != 4 else Val(1), _next_step(nxt)), glom_debug=True))
+    if got.kind != ref.kind or (got.kind == 'ok' and got.value != ref.value) or (got.kind != 'ok' and type(got.exc) is not type(ref.exc)):
+        return fail(why='the next step was not evaluated as it is after a plain value', got=got, ref=ref, prev=prev, nxt=nxt, chain=chain, r=r)
+    return True
+
+
+# ---- Fill / argument mode evaluate dict KEYS like every other member --------------------------------------
+def fill_keys(kind: int, site: int, x: int, y: int) -> bool:
+    start()
+    kind, site = concretize(kind, 0, 10), concretize(site, 0, 2)
+    x, y = concretize(x, 0, 2), concretize(y, 3, 4)
+    if OUT in (kind, site, x, y):
+        return True
+    t = {'a': x, 'b': y, 'name': 'n', 'f': _ident}
+    key, fill_exp, arg_exp = [
+        ('a', 'a', 'a'),
+        (T['a'], x, x),
+        (Spec(T['b']), y, y),
+        (Auto('name'), 'n', 'n'),
+        (Val('lit'), 'lit', 'lit'),
+        (Coalesce(T['zz'], default='dflt'), 'dflt', 'dflt'),
+        (marker, 'called', marker),                          # callables are called in Fill mode, kept in argument mode
+        ((T['a'], 'a'), (x, 'a'), (x, 'a')),
+        (frozenset([T['b']]), frozenset([y]), frozenset([y])),
+        (Pipe(T['a'], T + 1), x + 1, x + 1),
+        (7, 7, 7),
+    ][kind]
+    lit = {key: T['b'], 'other': 'b'}
+    if site == 0:
+        got, exp = glom(t, Fill(lit), glom_debug=True), {fill_exp: y, 'other': 'b'}
+    elif site == 1:
+        got, exp = glom(t, Coalesce('zz', default=lit), glom_debug=True), {arg_exp: y, 'other': 'b'}
+    else:
+        got, exp = glom(t, T['f'](lit), glom_debug=True), {arg_exp: y, 'other': 'b'}
+    reach('fill_keys')
+    return (got == exp and list(got) == list(exp)) or fail(why='dict keys are members like any other', got=got, exp=exp, kind=kind, site=site)
 
 
 NCONT = 5
@@ -348,6 +465,12 @@ def obligations(tier):
                 obs.append(Ob(mode_chain3, fixed={'k_a': ka, 'k_b': kb}, pre='0 <= k_c <= 8 and 0 <= side <= 1',
                               name='mode_chain3_%s_%s' % (KIND_NAMES[ka], KIND_NAMES[kb])))
     obs.append(Ob(real_probes, pre='0 <= which <= 12', name='real_probes'))
+    for prev in range(N_PREV):
+        for chain in range(6):
+            obs.append(Ob(step_independence, fixed={'prev': prev, 'chain': chain}, pre='0 <= nxt <= %d and -1 <= r <= 2' % (N_NEXT - 1),
+                          name='step_independence_p%d_c%d' % (prev, chain), timeout=120))
+    for site in range(3):
+        obs.append(Ob(fill_keys, fixed={'site': site}, pre='0 <= kind <= 10 and 0 <= x <= 2 and 3 <= y <= 4', name='fill_keys_s%d' % site))
     for outer in range(NCONT):
         obs.append(Ob(fill_shape, fixed={'outer': outer}, pre='0 <= inner <= 5', name='fill_shape_%s' % CONT_NAMES[outer]))
         for site in range(7):
@@ -358,4 +481,6 @@ def obligations(tier):
     obs.append(Ob(mode_extent, fixed={'root': K_TUPLE, 'c0': W_FILL}, pre=ck.format(v='c1') + ' and ' + ck.format(v='d'), twin='probed', name='mode_extent_tuple_Fill'))
     obs.append(Ob(arg_shape, fixed={'outer': 1, 'site': 0}, pre='0 <= inner <= 5', twin='arg', name='arg_shape_s0_list'))
     obs.append(Ob(arg_cyclic, fixed={'site': 0}, pre='0 <= kind <= 2', twin='cyclic', name='arg_cyclic_s0'))
+    obs.append(Ob(step_independence, fixed={'prev': 0, 'chain': 2}, pre='0 <= nxt <= %d and -1 <= r <= 2' % (N_NEXT - 1), twin='independent', name='step_independence_p0_c2'))
+    obs.append(Ob(fill_keys, fixed={'site': 0}, pre='0 <= kind <= 10 and 0 <= x <= 2 and 3 <= y <= 4', twin='fill_keys', name='fill_keys_s0'))
     return obs
